@@ -193,8 +193,45 @@ func floorDiv(a, b int64) int64 {
 
 var schedToks = []string{"-", "A1", "A1,or,A2", "A1,and,A3,or,A2", "lp,A1,or,A2,rp,and,A3", "A3"}
 
+// genSchedNow: a span placed relative to the wall clock, so that the `now` cut-off of Queries (and
+// `stop.IsZero() => stop = now`) is exercised; only unaligned every() is translation invariant. Every
+// decision point is at least 1 s away from `now`.
+func genSchedNow(r *kit.Rand) string {
+	every := kit.Pick(r, []int64{10 * sec, 60 * sec})
+	k := int64(2 + r.Intn(3))
+	var off, rel int64
+	switch r.Intn(3) {
+	case 0:
+		off, rel = 0, k*every+every/2
+	case 1:
+		off, rel = -2*sec, k*every+sec // tick k*every: stop = tick+2s is after now, the tick itself is not
+	default:
+		off, rel = 3*sec, k*every-2*sec // tick k*every: stop = tick-3s is before now, the tick itself is not
+	}
+	stopS := "z"
+	bound := rel
+	switch r.Intn(3) {
+	case 0:
+		bound = (k + 2) * every
+		stopS = strconv.FormatInt(bound, 10)
+	case 1:
+		bound = (k-1)*every + int64(r.U64()%uint64(every))
+		stopS = strconv.FormatInt(bound, 10)
+	}
+	var ticks []int64
+	for t := every; t <= bound; t += every {
+		ticks = append(ticks, t)
+	}
+	per := kit.Pick(r, []int64{every, 3 * sec})
+	return fmt.Sprintf("sched toks=%s per=%d off=%d ev=%d al=0 cron=0 gb=0 gbo=0 ag=0 fill=- tags=0 decl=db.rp from=db.rp start=0 stop=%s lt=1 rel=%d ticks=%s",
+		schedToks[r.Intn(len(schedToks))], per, off, every, stopS, rel, i64s(ticks))
+}
+
 func genSched(r *kit.Rand, i int) string {
-	mode := i % 10
+	mode := i % 11
+	if mode == 10 {
+		return genSchedNow(r)
+	}
 	every := kit.Pick(r, everyChoices)
 	if every < ms {
 		every = 250 * ms
